@@ -1,12 +1,18 @@
 """C20 - visitor traversal presents every element exactly once, in source order.
 
-(M) MC_Syntax: Traversal(file) is the reference order - the file, its module, every definition in source order,
+(M) Visitor.tla: element trees [cb, id, kids]; reference PreOrder vs the walk as the code performs it (an explicit stack
+    of [node, next child] frames, one step per presentation or return); MC_Visitor: on every tree of <= 6 (7) nodes
+    PrefixOfReference, ExactlyOnce, ContainersFirst, Complete, termination.
+    MC_Syntax: FileTree(file) is the element tree of a generated file and Traversal(file) its reference order - the file, its module, every definition in source order,
     containers before their contents, the type of every field / parameter / return member / alias right after its owner
     followed by the element, key, value, success and failure types nested inside it (aliases: the walk descends into
     what the alias finally names).
 (G/T) for every simulate-mode program of MC_Syntax a recording implementation of the public Visitor trait logs one
     event per callback (callback kind + parser-scoped identifier, or the type string for type references); the recorded
     sequence of each file must equal Traversal(file): nothing skipped, nothing twice, nothing from another file.
+(T) Trace_Visitor: every recorded walk is an event [f, tree, got]; TLC runs the stack machine of Visitor.tla on the
+    model's tree and accepts the walk iff the real callbacks are exactly the machine's presentations, in order, and every
+    declared element presented lies in the walked file.
 """
 RULE = ("cases = finished behaviours of MC_Syntax (multi-file programs with cross-file references, anonymous types to "
         "depth 3, aliases of anonymous types); distinct = distinct program texts; non-trivial = more than 12 tokens")
@@ -21,6 +27,11 @@ def signature(f):
 
 
 def run(ctx):
+    # (M) the stack machine of Visitor.tla presents exactly the pre-order traversal on every tree of <= 6 (7) nodes
+    ctx.tlc("MC_Visitor", "MC_Visitor" if ctx.quick else "MC_Visitor_thorough", workers=4, required_actions=["DoDescend", "DoReturn"])
     n = 600 if ctx.quick else 6000
     ctx.tlc("MC_Syntax", "MC_Syntax_sim", replay="syntax-visit", simulate={"num": n, "depth": 500, "procs": 12, "seed_offset": 20},
             label="MC_Syntax_sim", timeout=7200)
+    # (T) every recorded walk against the machine run on the model's element tree of the file
+    trace = ctx.collect_events("visit")
+    ctx.validate_events("Trace_Visitor", trace, parallel=8)
